@@ -51,7 +51,7 @@ def Fits (sd : Side) (bat : List Nat) (n : Nat) : Prop := reqBlocks n ≤ freeBl
 theorem writeFile_ok_iff {sd : Side} {bat : List Nat} {own : Nat → List Nat} (inv : SideInv sd bat own)
     (content : Bytes) (name ext : Str) (kind flag : Nat) :
     (∃ sd', writeFile sd content name ext kind flag = .ok sd') ↔ Fits sd bat content.length := by
-  rw [writeFile_unfold sd bat content name ext kind flag inv.hbat]
+  rw [writeFile_unfold sd bat content name ext kind flag inv.hbat inv.not_free40.1 inv.not_free40.2]
   unfold Fits
   by_cases hfit : (chosen bat (reqBlocks content.length)).length < reqBlocks content.length
   · rw [if_pos hfit]
